@@ -33,6 +33,10 @@ class KeyUnfaithful(Exception):
 
 
 def unfaithful_violation(ctx, e):
+    if e.row.get("kind") == "stuck":
+        ctx.violation({"kind": "implementation-blocked", "what": e.row["what"], "harness_output_tail": e.row.get("a"),
+                       "harness_args": [str(a) for a in e.args]})
+        return
     ctx.violation({"kind": "identity-of-stored-values", "what": e.row.get("what"), "a": e.row.get("a"), "b": e.row.get("b"),
                    "harness_args": [str(a) for a in e.args],
                    "explain": "two values that differ in id, kind, instant or object value have the same UUID (or equal values "
@@ -47,6 +51,9 @@ def hstore(args, timeout=1800):
         # property distinguishes (or the reverse); the last line describes the pair
         rows = [json.loads(l) for l in out.splitlines() if l.startswith("{")]
         raise KeyUnfaithful([r for r in rows if r.get("kind") == "key_unfaithful"][-1], args)
+    if rc == 4:
+        raise KeyUnfaithful({"kind": "stuck", "what": "implementation blocked: a Store/Graph call made by the harness did not "
+                             "return within 120 s", "a": out[-600:], "b": ""}, args)
     if rc != 0:
         raise vcheck.Broken("h_store failed", out[-3000:])
     return [json.loads(l) for l in out.splitlines() if l.startswith("{")]
